@@ -3,7 +3,7 @@
    src_val_next / src_val_reset / src_val_valid call the functions of Gen/CsmSrc.v (the translation of
    internal/csm's node level, regenerated from /repo on every run) on the embedded nodes; src_step,
    src_run, src_find_forward and src_wall_next are CsmModel.v's machine with those operations plugged in.
-   The theorem src_wall_next_eq says that, from every valid wall clock reading of 1969..2262, this machine
+   The theorem src_wall_next_eq says that, from every valid wall clock reading of the years 0..3940, this machine
    returns exactly what the model's wall_next returns -- the function NextFire.v, and hence every theorem
    of Props/C01 C02 C06 C14, is built on. *)
 From Coq Require Import ZArith List Bool Lia ZifyBool.
